@@ -44,7 +44,9 @@ theorem handleLastError (F : Frame W P) (s : St σ ω) (h : P s) : P (handleLast
 
 theorem handleResult (F : Frame W P) (s : St σ ω) (ans : SslAns) (h : P s) : P (handleResult W s ans).2 := by
   unfold Tls.handleResult
-  exact F.handleLastError _ (F.core h ⟨rfl, rfl, rfl, rfl⟩)
+  split
+  · exact F.core h ⟨rfl, rfl, rfl, rfl⟩
+  · exact F.handleLastError _ (F.core h ⟨rfl, rfl, rfl, rfl⟩)
 
 theorem interp (F : Frame W P) (prog : EngProg σ) : ∀ (s : St σ ω), P s → P (interp W s prog).2 := by
   induction prog with
@@ -54,16 +56,16 @@ theorem interp (F : Frame W P) (prog : EngProg σ) : ∀ (s : St σ ω), P s →
     have h1 := F.bioRead s n h
     unfold Tls.interp
     split
-    · rename_i bs s' heq; rw [heq] at h1; exact ih bs s' h1
-    · rename_i e s' heq; rw [heq] at h1; exact h1
+    · rename_i bs s' heq; rw [heq] at h1; exact ih _ s' h1
+    · rename_i e s' heq; rw [heq] at h1; exact ih _ _ (F.core h1 ⟨rfl, rfl, rfl, rfl⟩)
     · rename_i m s' heq; rw [heq] at h1; exact h1
   | bioWrite bs k ih =>
     intro s h
     have h1 := F.bioWrite s bs h
     unfold Tls.interp
     split
-    · rename_i n s' heq; rw [heq] at h1; exact ih n s' h1
-    · rename_i e s' heq; rw [heq] at h1; exact h1
+    · rename_i n s' heq; rw [heq] at h1; exact ih _ s' h1
+    · rename_i e s' heq; rw [heq] at h1; exact ih _ _ (F.core h1 ⟨rfl, rfl, rfl, rfl⟩)
     · rename_i m s' heq; rw [heq] at h1; exact h1
 
 theorem noteCall (F : Frame W P) (E : Engine σ) (s : St σ ω) (r : Bool) (a : Bytes) (ans : SslAns) (h : P s) :
@@ -481,12 +483,13 @@ theorem bioWrite_no_abort {W : World ω} (s : St σ ω) (bs : Bytes) (m : String
     · exact noteWrite_no_abort _ _ _ _ _ _
     · split <;> exact noteWrite_no_abort _ _ _ _ _ _
 
-/-- an engine call leaves the control fields alone, never aborts, and ends in one of its leaves -/
+/-- an engine call leaves the control fields alone, never aborts, never throws (d6dcd55), and ends in one
+of its leaves -/
 theorem interp_spec {W : World ω} (Q : SslAns → Bytes → σ → Prop) (prog : EngProg σ) (hq : AllLeaves Q prog) :
     ∀ (s : St σ ω), CtlEq s (interp W s prog).2 ∧
       (∀ m, (interp W s prog).1 ≠ .abort m) ∧
       (∀ a o, (interp W s prog).1 = .ok (a, o) → Q a o (interp W s prog).2.e) ∧
-      (∀ e, (interp W s prog).1 = .exn e → (interp W s prog).2.e = s.e) := by
+      (∀ e, (interp W s prog).1 ≠ .exn e) := by
   induction prog with
   | ret ans out e' =>
     intro s
@@ -507,12 +510,12 @@ theorem interp_spec {W : World ω} (Q : SslAns → Bytes → σ → Prop) (prog 
       split
       · rename_i bs s' heq
         rw [heq] at hc
-        obtain ⟨i1, i2, i3, i4⟩ := ih bs (hk bs) s'
-        refine ⟨hc.1.trans i1, i2, i3, ?_⟩
-        intro e he; rw [i4 e he]; exact hc.2
+        obtain ⟨i1, i2, i3, i4⟩ := ih _ (hk _) s'
+        exact ⟨hc.1.trans i1, i2, i3, i4⟩
       · rename_i e s' heq
         rw [heq] at hc
-        exact ⟨hc.1, by intro m; simp, by intro a o; simp, fun _ _ => hc.2⟩
+        obtain ⟨i1, i2, i3, i4⟩ := ih _ (hk none) (stash s' e)
+        exact ⟨(hc.1.trans ⟨rfl, rfl, rfl, rfl⟩).trans i1, i2, i3, i4⟩
       · rename_i m s' heq
         exact absurd heq (hna m s')
   | bioWrite bs k ih =>
@@ -525,12 +528,12 @@ theorem interp_spec {W : World ω} (Q : SslAns → Bytes → σ → Prop) (prog 
       split
       · rename_i n s' heq
         rw [heq] at hc
-        obtain ⟨i1, i2, i3, i4⟩ := ih n (hk n) s'
-        refine ⟨hc.1.trans i1, i2, i3, ?_⟩
-        intro e he; rw [i4 e he]; exact hc.2
+        obtain ⟨i1, i2, i3, i4⟩ := ih _ (hk _) s'
+        exact ⟨hc.1.trans i1, i2, i3, i4⟩
       · rename_i e s' heq
         rw [heq] at hc
-        exact ⟨hc.1, by intro m; simp, by intro a o; simp, fun _ _ => hc.2⟩
+        obtain ⟨i1, i2, i3, i4⟩ := ih _ (hk none) (stash s' e)
+        exact ⟨(hc.1.trans ⟨rfl, rfl, rfl, rfl⟩).trans i1, i2, i3, i4⟩
       · rename_i m s' heq
         exact absurd heq (hna m s')
 
@@ -555,15 +558,27 @@ theorem handleError_keeps {W : World ω} (s : St σ ω) (err : SslErr) :
 theorem handleResult_keeps {W : World ω} (s : St σ ω) (ans : SslAns) :
     (handleResult W s ans).2.g.pendingSend = s.g.pendingSend ∧ (handleResult W s ans).2.g.engCalls = s.g.engCalls ∧
     (handleResult W s ans).2.e = s.e ∧ ∀ m, (handleResult W s ans).1 ≠ .abort m := by
-  unfold Tls.handleResult Tls.handleLastError
-  have h := handleError_keeps (W := W) (setLastError s ans.toErr) (setLastError s ans.toErr).g.lastError
-  rcases hh : Tls.handleError W (setLastError s ans.toErr) (setLastError s ans.toErr).g.lastError with ⟨o, s'⟩
-  rw [hh] at h
-  obtain ⟨⟨_, h2, h3, _⟩, h5, h6⟩ := h
-  cases o with
-  | ok b => cases b <;> simp_all [setLastError]
-  | exn e => simp_all [setLastError]
-  | abort m => exact absurd rfl (h6 m)
+  unfold Tls.handleResult
+  split
+  · exact ⟨rfl, rfl, rfl, by intro m; simp⟩
+  · unfold Tls.handleLastError
+    have h := handleError_keeps (W := W) (setLastError s ans.toErr) (setLastError s ans.toErr).g.lastError
+    rcases hh : Tls.handleError W (setLastError s ans.toErr) (setLastError s ans.toErr).g.lastError with ⟨o, s'⟩
+    rw [hh] at h
+    obtain ⟨⟨_, h2, h3, _⟩, h5, h6⟩ := h
+    cases o with
+    | ok b => cases b <;> simp_all [setLastError]
+    | exn e => simp_all [setLastError]
+    | abort m => exact absurd rfl (h6 m)
+
+/-- a fatal answer of the engine always ends in an exception: the stashed socket failure if there is
+one, else the TLS error -/
+theorem handleResult_fatal {W : World ω} (s : St σ ω) (ans : SslAns)
+    (hf : ans = .zeroReturn ∨ ans = .syscallErr ∨ ans = .sslErr) : ∃ e s', handleResult W s ans = (.exn e, s') := by
+  unfold Tls.handleResult
+  split
+  · exact ⟨_, _, rfl⟩
+  · rcases hf with h | h | h <;> subst h <;> exact ⟨_, _, rfl⟩
 
 /-- what the next `ssl_write` is given after an answer -/
 def afterAns (ans : SslAns) (rest : Bytes) : Bytes :=
